@@ -6,13 +6,21 @@ import numpy as np
 from vlib import enc
 
 
+_SHARED = {}
+
+
 def _climate(cls_name, data, **kw):
+    """All climate classes of one case are derived from ONE shared ClimateData object (as a user would),
+    in the order Spearman, Tsonis, partial correlation: each must see the data, not what another left."""
     import pyunicorn.climate as cl
     from pyunicorn.core import GeoGrid
     T, N = data.shape
-    grid = GeoGrid(np.arange(float(T)), np.linspace(0.0, 20.0, N), np.linspace(0.0, 40.0, N), silence_level=3)
-    cd = cl.ClimateData(data.copy(), grid, 1, silence_level=3)
-    return getattr(cl, cls_name)(cd, threshold=0.1, winter_only=False, silence_level=3, **kw)
+    key = id(data)
+    if _SHARED.get("key") != key:
+        grid = GeoGrid(np.arange(float(T)), np.linspace(0.0, 20.0, N), np.linspace(0.0, 40.0, N), silence_level=3)
+        _SHARED.clear()
+        _SHARED.update(key=key, data=data, cd=cl.ClimateData(data.copy(), grid, 1, silence_level=3))
+    return getattr(cl, cls_name)(_SHARED["cd"], threshold=0.1, winter_only=False, silence_level=3, **kw)
 
 
 def run_case(c):
@@ -43,8 +51,8 @@ def run_case(c):
     put("gauss", lambda: enc.arr(ca.mutual_information(tau_max=tm, estimator="gauss", lag_mode="all")))
     put("pure0", lambda: enc.arr(CouplingAnalysisPurePython(data.copy(), silence_level=3)
                                  .cross_correlation(tau_max=0, lag_mode="all")[0]))
-    put("tsonis", lambda: enc.arr(_climate("TsonisClimateNetwork", data).correlation()))
     put("spearman", lambda: enc.arr(_climate("SpearmanClimateNetwork", data).similarity_measure()))
+    put("tsonis", lambda: enc.arr(_climate("TsonisClimateNetwork", data).correlation()))
     put("partial", lambda: enc.arr(_climate("PartialCorrelationClimateNetwork", data).similarity_measure()))
     # Derive: positive affine map of every series, and a reordering of the series
     aff = data * np.array([2.0, 0.5, 3.0])[None, :] + np.array([1.0, -4.0, 0.25])[None, :]
